@@ -552,6 +552,20 @@ def sources_clause(ctx):
         run.check(ok, 'SRC', where(repo, lp), pr.qualname, 'for res in source.res_iter: yield res',
                   'a sub-flow resource is re-paired through a lookup keyed by its name (%s): sub-flow names are not unique, so several '
                   'streams end up under one descriptor' % (u(keyed[0])[:60] if keyed else 'no yield'))
+        # ... and the sub-flow's resource iterator is driven to its end: it is iterated as it is (or numbered / padded), not zipped
+        # with something shorter - what a step of the sub-flow does after its last resource (a finalizer, an error raised at the
+        # end of a package step) happens, and surfaces, only when the iterator is asked once more
+        from rules.stream import subst_once as _so16
+        from sa.pattern import match_expr as _me16
+        it_ = _so16(pr.node, lp.iter)
+        direct = isinstance(it_, ast.Attribute) and it_.attr == 'res_iter'
+        direct = direct or (isinstance(it_, ast.Call) and u(it_.func) == 'enumerate' and it_.args and isinstance(it_.args[0], ast.Attribute)
+                            and it_.args[0].attr == 'res_iter')
+        direct = direct or (isinstance(it_, ast.Call) and u(it_.func) in ('itertools.zip_longest', 'zip_longest') and
+                            any(isinstance(a_, ast.Attribute) and a_.attr == 'res_iter' for a_ in it_.args))
+        run.check(direct, 'SRC', where(repo, lp), pr.qualname, 'the resource iterator of the sub-flow is iterated to its end',
+                  'the resources of a sub-flow are taken through %s: the sub-flow\'s iterator is not asked past its last resource, so a '
+                  'step of the sub-flow that fails (or finalises) at the end of its stream never does - the run succeeds' % u(lp.iter)[:60])
     else:
         run.fail('SRC', pr.where, pr.qualname, 'loop over the sub-flow resources', 'the sub-flow resources are not streamed one by one')
 
